@@ -28,6 +28,22 @@ _Bool nondet_bool(void);
 size_t nondet_size_t(void);
 int nondet_int(void);
 
+char nondet_char(void);
+
+/* store k arbitrary bytes at s (k <= cap; cap is the caller's compile-time constant buffer size, which bounds the loop) */
+static void
+verif_io_fill(char * s, size_t k, size_t cap)
+{
+	size_t i;
+	(void)&i;	/* address-taken: DFCC tracks only 'dirty' locals assigned inside un-contracted loops */
+
+	for (i = 0; i < cap; i++) {
+		if (i >= k)
+			break;
+		s[i] = nondet_char();
+	}
+}
+
 FILE *
 fopen(const char * path, const char * mode)
 {
@@ -63,7 +79,7 @@ fgets(char * s, int n, FILE * f)
 		if (!vf->eof && verif_io_remaining > 0) {
 			/* read error: array contents indeterminate */
 			vf->err = 1;
-			__CPROVER_havoc_slice(s, (size_t)n);
+			verif_io_fill(s, (size_t)n, (size_t)n);
 		} else
 			vf->eof = 1;
 		return (NULL);
@@ -71,7 +87,7 @@ fgets(char * s, int n, FILE * f)
 	k = nondet_size_t();
 	__CPROVER_assume(k >= 1 && k <= (size_t)n - 1 && k <= verif_io_remaining);
 	verif_io_remaining -= k;
-	__CPROVER_havoc_slice(s, k);
+	verif_io_fill(s, k, (size_t)n);
 	s[k] = '\0';
 	return (s);
 }
